@@ -95,6 +95,14 @@ Theorem C01_model_meets_spec : forall (H : content -> string) names ops s,
 Proof. exact model_meets_spec. Qed.
 Print Assumptions C01_model_meets_spec.
 
+(* ... including its second half (KeepSteps: "once acknowledged an intact copy is retrievable" -- no GET, HEAD
+   or PUT, complete, cut short or abandoned by its client, takes an intact copy away): a block name with an
+   intact copy somewhere before a request has one after it *)
+Theorem C01_model_keeps_intact_copies : forall (H : content -> string) names ops s,
+  KeepSteps H names (map (listing_of names) (vols s)) (map (obs_of names) (run H s ops)).
+Proof. exact model_keeps. Qed.
+Print Assumptions C01_model_keeps_intact_copies.
+
 (* hypotheses are satisfiable: corrupt copy on a read-only first volume, intact copy on the second *)
 Theorem C01_example_get : handle_get ex_H {| vols := ex_vols; counter := 0 |} "aaa1"%string =
   {| code := 200; body := Some {| cid := 1; clen := 4 |}; clength := Some 4 |}.
